@@ -549,17 +549,32 @@ Definition bi_getopts := bi_getopts_gen true.
 Definition bi_getopts_prefix := bi_getopts_gen false.
 
 (* ---------------------------------------------------------------- echo / pwd / unset *)
-(* echoOpts: for len(args) > 0 { switch args[0] {...}; args = args[1:] } ; Err = out of fuel *)
+(* for len(args) > 0 { opts := args[0];
+     if len(opts) < 2 || opts[0] != '-' || strings.Trim(opts[1:], "neE") != "" { break }
+     for _, opt := range opts[1:] { n: newline = false; e: doExpand = true; E: doExpand = false }
+     args = args[1:] } ;  Err = out of fuel.
+   strings.Trim(s, "neE") != "" iff some byte of s is not one of n, e, E *)
+Definition is_neE (c : N) : bool := N.eqb c 110 || N.eqb c 101 || N.eqb c 69.
+Definition echo_flag (acc : bool * bool) (c : N) : bool * bool :=
+  let (nl, de) := acc in
+  if N.eqb c 110 then (false, de) else if N.eqb c 101 then (nl, true) else if N.eqb c 69 then (nl, false) else (nl, de).
+
 Fixpoint echo_opts (fuel : nat) (args : list str) (newline doexpand : bool) : res (list str * bool * bool) :=
   match fuel with
   | O => OutOfFuel
   | S f =>
       if 0 <? zlen args then
-        a0 <- idx args 0 ;;
-        if str_eqb a0 (b "-n") then r <- slice_from args 1 ;; echo_opts f r false doexpand
-        else if str_eqb a0 (b "-e") then r <- slice_from args 1 ;; echo_opts f r newline true
-        else if str_eqb a0 (b "-E") then r <- slice_from args 1 ;; echo_opts f r newline doexpand
-        else Ok (args, newline, doexpand)
+        opts <- idx args 0 ;;
+        if zlen opts <? 2 then Ok (args, newline, doexpand)
+        else
+          o0 <- idx opts 0 ;;
+          if negb (N.eqb o0 MINUS) then Ok (args, newline, doexpand)
+          else
+            letters <- slice_from opts 1 ;;
+            if negb (forallb is_neE letters) then Ok (args, newline, doexpand)
+            else
+              let (nl, de) := fold_left echo_flag letters (newline, doexpand) in
+              r <- slice_from args 1 ;; echo_opts f r nl de
       else Ok (args, newline, doexpand)
   end.
 
